@@ -25,6 +25,13 @@ Step(e) ==
               [] e.ev = "Block"  -> BlockViol(e)
               [] e.ev = "View"   -> (IF C07_ViewNoEffect(ToSet(e.changed), e.metaSame) THEN {} ELSE {<<"C07_ViewNoEffect", ToSet(e.changed)>>})
                                     \cup (IF e.nrec = e.n THEN {} ELSE {<<"C08_OneReceiptPerTx", "view">>})
+              [] e.ev = "RootPair" ->
+                   \* C10: the tx root commits to the transaction sequence, the receipt root to the receipts in block order;
+                   \* the state root is the same for the same (commuting) transfers in another order
+                   (IF (e.hashesA = e.hashesB) = (e.txA = e.txB) THEN {} ELSE {<<"C10_TxRootCommits", e.mode>>})
+                   \cup (IF (e.hashesA = e.hashesB) = (e.rcA = e.rcB) THEN {} ELSE {<<"C10_ReceiptRootCommits", e.mode>>})
+                   \cup (IF e.allOK /\ e.mode \in {"same", "perm"} /\ e.stA # e.stB THEN {<<"C10_StateOrderIndependent", e.mode>>} ELSE {})
+                   \cup (IF e.allOK /\ e.mode = "perturb" /\ e.stA = e.stB THEN {<<"C10_StateSensitive", e.mode>>} ELSE {})
               [] e.ev = "ExecError" -> {<<"C08_Alive", e.cls>>}
               [] e.ev = "Crashed"   -> {<<"C08_Alive", "crashed">>}
               [] OTHER -> {}
